@@ -96,6 +96,18 @@ class C05(L1Prop):
         ("row-http-as", "rowfault latest:1 2", "http POST as hyph=anc:1:2 hyph=1 snapshot b:8,1"),
         ("row-lib-as", "rowfault latest:1 2", "as 1 anc:1:2 b:8,1"),
         ("row-lib-gcv-old", "rowfault anc:1:1 2", "gcv 1 anc:1:2"),
+        # a statement that fails INSIDE one storage call (add_version = INSERT versions + UPDATE clients;
+        # set_snapshot = UPDATE clients; new_client = INSERT clients): the whole request is undone
+        ("sql-lib-av-update", "sqlfault clients UPDATE 2", "av 1 latest:1 b:6,1"),
+        ("sql-lib-av-insert", "sqlfault versions INSERT 2", "av 1 latest:1 b:6,2"),
+        ("sql-http-av-update", "sqlfault clients UPDATE 2", "http POST av hyph=latest:1 hyph=1 history b:6,3"),
+        ("sql-lib-as-update", "sqlfault clients UPDATE 2", "as 1 latest:1 b:8,3"),
+        ("sql-http-av-new", "sqlfault versions INSERT 8", "http POST av hyph=nil hyph=9 history b:5,5"),
+    ]
+    # the write lock is held by another connection while the request asks for its transaction (and is
+    # let go as soon as that call returns); one lock-wait budget (5 s) per case
+    LOCKKINDS = [
+        ("lock-lib-av", "lockbegin clients UPDATE", "av 1 latest:1 b:6,4"),
     ]
     def cases(self, rng, tier):
         out = []
@@ -103,7 +115,7 @@ class C05(L1Prop):
         maxidx = 13
         for s in range(nstates):
             seed = rng.getrandbits(32)
-            for (kname, rf, req) in self.ROWKINDS:
+            for (kname, rf, req) in self.ROWKINDS + (self.LOCKKINDS if s == 0 or tier == "thorough" else []):
                 ops = state_prefix(random.Random(seed), (1, 2))
                 ops += ["dumpall", "dump 9", rf, req, "dumpall", "dump 9",
                         "http GET gcv hyph=nil hyph=1 absent e", "http POST av hyph=latest:1 hyph=1 history b:77",
@@ -173,6 +185,21 @@ class C05(L1Prop):
             fails.append(f"op {ti} `{o}` under plan {case.meta['plan']}: the server failed: {ri[:100]}")
         if fired > 0 and not err:
             fails.append(f"op {ti} `{o}`: storage call failed (plan {case.meta['plan']}) but the client received `{ri.split(' | ')[0]}` instead of an error")
+        # no partial effect: for a failure that takes no effect the dumps before and after are equal
+        if case.meta.get("kind", "").startswith(("row-", "sql-", "lock-")) and not case.meta["kind"].endswith("av-new"):
+            lo = ti - 2
+            while lo >= 0 and trace[lo][0].startswith("dump "):
+                lo -= 1
+            hi = ti + 1
+            while hi < len(trace) and not trace[hi][0].startswith("dump "):
+                hi += 1
+            hi2 = hi
+            while hi2 < len(trace) and trace[hi2][0].startswith("dump "):
+                hi2 += 1
+            before, after = state_sig(trace, lo + 1, ti - 1), state_sig(trace, hi, hi2)
+            if before and after and set(before) != set(after):
+                diff = ([(a, b) for a, b in zip(sorted(set(before) - set(after)), sorted(set(after) - set(before)))] + [(str(len(before)) + ' dumps: ' + ' / '.join(before), str(len(after)) + ' dumps: ' + ' / '.join(after))])[:1]
+                fails.append(f"op {ti} `{o}` failed ({case.meta['plan']}) and was answered `{ri.split(' | ')[0][:40]}`, but the stored state changed: {diff[0][0][:160]} -> {diff[0][1][:160]} (partial effect)")
         # later requests are served
         for j in range(ti + 1, len(trace)):
             oj, rj, _ = trace[j]
